@@ -32,15 +32,79 @@ pub(crate) fn any_hsla_valid() -> Hsla {
     c
 }
 
-/// ASSUMED contract of `deg_mod`, used at every call site below
+/// ASSUMED contract of the one operation inside `deg_mod` that no installed
+/// back end models: `f64 % 360.0` (IEEE 754 fmod: exact, result has the sign
+/// of the dividend and a magnitude below the divisor).  Exact on [-720, 720],
+/// "some value of the right sign and magnitude" beyond.
+pub(crate) fn fmod_by_contract(v: f64, t: f64) -> f64 {
+    assert!(t == 360.0, "deg_mod divides by a full turn");
+    let a = v.abs();
+    if !v.is_finite() {
+        f64::NAN
+    } else if a < 360.0 {
+        v
+    } else if a < 720.0 {
+        if v > 0.0 { v - 360.0 } else { v + 360.0 }
+    } else if a == 720.0 {
+        if v > 0.0 { 0.0 } else { -0.0 }
+    } else {
+        let r: f64 = kani::any();
+        kani::assume(r.abs() < 360.0 && r.is_sign_negative() == v.is_sign_negative());
+        r
+    }
+}
+
+// The body of the real `deg_mod`, cut out of /repo's current source on every
+// run (tools/extract.py); the only substitution is `value % turn` ->
+// `fmod_by_contract(value, turn)`.
+//@range file=rsass/src/value/colors/hsla.rs fn=deg_mod from="let turn = 360.;"
+//@  header: fn deg_mod_extracted(value: f64) -> f64
+//@  subst: value % turn => fmod_by_contract(value, turn)
+//@end
+
+/// C31: the contract that every call site of `deg_mod` is checked against
+/// (`deg_mod_by_contract` below) holds for the real body, for ALL doubles,
+/// given only the contract of `%`: hue in [0, 360) for every finite angle,
+/// identity on [0, 360), minus / plus one turn on the neighbouring turns, a
+/// full turn (and anything that rounds to it) folded to 0, NaN otherwise.
+#[kani::proof]
+fn c31_deg_mod_contract() {
+    let v: f64 = kani::any();
+    let r = deg_mod_extracted(v);
+    if !v.is_finite() {
+        assert!(r.is_nan(), "deg_mod: NaN / infinite angles stay NaN");
+    } else {
+        assert!(0.0 <= r && r < 360.0, "deg_mod: hue in [0, 360) for every finite angle");
+        if 0.0 <= v && v < 360.0 {
+            assert!(r == v, "deg_mod: an angle already in range is unchanged");
+        } else if 360.0 <= v && v < 720.0 {
+            assert!(r == v - 360.0, "deg_mod: one turn off");
+        } else if v == 720.0 {
+            assert!(r == 0.0, "deg_mod: two turns are 0");
+        } else if -360.0 <= v && v < 0.0 {
+            let w = v + 360.0;
+            assert!(r == if w >= 360.0 { 0.0 } else { w }, "deg_mod: negative angles gain one turn; a result that rounds to a full turn is 0");
+        }
+    }
+}
+#[kani::proof]
+fn cover_deg_mod_contract() {
+    let v: f64 = kani::any();
+    let r = deg_mod_extracted(v);
+    kani::cover!(v.is_finite() && v < -1000.0 && r > 0.0);
+    kani::cover!(v.is_finite() && v > 1000.0 && r > 0.0);
+    kani::cover!(v < 0.0 && v > -1e-20 && r == 0.0);
+}
+
+/// Contract of `deg_mod`, used at every call site below
 /// (`#[kani::stub]`).  CBMC 6.11 does not model `f64 % f64` (measured: it
 /// "refutes" `-90.0 % 360.0 == -90.0` and `v % 360 == v` for 0 <= v < 360),
 /// so nothing that executes `value % turn` can be decided by Kani, and Verus
-/// has no float arithmetic.  The body of the real `deg_mod` is therefore NOT
-/// verified: this contract is an unchecked assumption, listed as such in the
-/// evidence of every property that uses it.  It is exact (not an
-/// over-approximation) on [-360, 720]; harnesses whose law needs the exact
-/// value keep their angles inside that interval.
+/// has no float arithmetic.  The contract is proved for the real body by
+/// `c31_deg_mod_contract` above, modulo the assumed contract of `%` itself
+/// (`fmod_by_contract`).  It is exact (not an over-approximation) on
+/// [-360, 720]; harnesses whose law needs the exact value keep their angles
+/// inside that interval.
 ///   finite v in [0,360)      -> v
 ///   finite v in [360,720)    -> v - 360   (exact)
 ///   v == 720                 -> 0
